@@ -65,6 +65,12 @@ struct Objs : IObjs
       return fmtVec(itv->lower()) + " " + fmtVec(itv->upper());
     }
     if (name == "int.inside" && itv && t.size() == 1 + D) { return itv->inside(parseVec<S, D>(t, 1)) ? "1" : "0"; }
+    if (name == "int.hullbox" && itv && t.size() == 1) {
+      // the box built from the KEPT interval object (after whatever include() calls it has seen) and converted back
+      AxisAlignedBoundingBox<S, D> b(*itv);
+      auto I = b.toInterval();
+      return fmtVec(I.lower()) + " " + fmtVec(I.upper());
+    }
     if (name == "aabb.toint" && aabb && t.size() == 1) {
       auto I = aabb->toInterval();
       return fmtVec(I.lower()) + " " + fmtVec(I.upper());
